@@ -296,6 +296,8 @@ int main(int argc, char** argv) {
         {"G", {{PAD_C, 5016}, {PAD_C, 12016}, {PAD_C, 20016}, {PAD_R, 5016}, {PAD_R, 12016}, {FFT_C, 16}}},
         // big lengths: a size threshold in the caching policy (not caching / sharing plans above some length) only shows here
         {"H", {{FFT_C, 65536}, {FFT_C, 65552}, {FFT_C, 131072}, {FFT_R, 131072}, {IFFT, 98304}, {FFT_C, 4099}}},
+        // lengths whose primality test walks beyond the built-in prime table (a cursor / generator that survives between calls)
+        {"I", {{FFT_C, 70747}, {FFT_C, 66049}, {FFT_C, 100003}, {FFT_R, 132098}, {FFT_C, 66047}, {IFFT, 69169}}},
         {"F", {{HOLD_IR, 12}, {HOLD_IR, 20}, {IRFFT, 14}, {IRFFT, 12}, {HOLD_Z, 5}, {HOLD_Z, 9}, {USEBAD, 0}, {USE, 0}, {USE, 1}, {USEBAD, 1}}},
         {"D", {{FFT_C, 12}, {FFT_C, 60}, {FFT_C, 53}, {FFT_R, 30}, {HOLD_C, 60}, {HOLD_R, 30}, {HOLD_I, 12}, {HOLD_C, 53}, {USE, 0}, {USEBAD, 0}}},
     };
@@ -305,6 +307,7 @@ int main(int argc, char** argv) {
         int d = NL == 6 ? (T ? 9 : 6) : (T ? 6 : 5);
         if (asan) d = NL == 6 ? (T ? 5 : 4) : 4;
         if (std::string(al.name) == "H") d = asan ? 2 : (T ? 4 : 3);
+        if (std::string(al.name) == "I") d = asan ? 1 : (T ? 3 : 2);
         std::string chk = std::string("seq.") + al.name;
         if (!ctx.wants(chk.c_str())) continue;
         // references: each letter in a brand-new thread (twice: must be deterministic)
